@@ -52,6 +52,12 @@ fn run_targets(ctx: &mut Ctx, spaces: Vec<TargetSpace>, f: impl Fn(&Target, u64,
             f(&t, idx, if all { Bufs::All } else { Bufs::Boundary }, l);
             // every packet-builder configuration is also realised in the probed flavour (the intermediate
             // builder queried after every call), whatever flavour the rotation gave it
+            if let Target::Compound(ms) = &t {
+                // the same member list added to a compound builder that is queried after every add_packet
+                let tp = Target::CompoundProbed(ms.clone());
+                l.states += 1;
+                f(&tp, idx, Bufs::Exact, l);
+            }
             if let Target::Pkt(p, var) = &t {
                 if !var.probe {
                     let tp = Target::Pkt(p.clone(), crate::subject::build::Variant { probe: true, ..*var });
